@@ -21,8 +21,12 @@ for d in sorted(glob.glob(f"{root}/C*/seed/[abc]")):
     suite_ok = "174 passed" in suite and "failed" not in suite
     demo_fails = ("test result: ok" not in withc)
     demo_clean_ok = ("test result: ok" in clean)
-    flagged = re.search(r"=> flagged:(.*)", txt)
-    flagged = flagged.group(1).split() if flagged else []
+    old = re.search(r"^OLD-HARNESS\s+=> flagged:(.*)$", txt, re.M)
+    old_flagged = old.group(1).split() if old else []
+    allf = re.findall(r"^\s+=> flagged:(.*)$", txt, re.M)
+    final_flagged = allf[-1].split() if allf else []
+    ran = re.findall(r"^\s+(C\d+) (?:VIOLATION|exit=)", txt, re.M)
+    flagged = sorted(set(old_flagged) | set(final_flagged))
     keys = {}
     for mm in re.finditer(r"^\s+(C\d+) VIOLATION\s+(\S+) \((\d+) case", txt, re.M):
         keys.setdefault(mm.group(1), mm.group(2))
@@ -53,8 +57,10 @@ for d in sorted(glob.glob(f"{root}/C*/seed/[abc]")):
             "demo_with_change": withc,
             "demo_on_clean_checkout": clean,
         },
-        "checks_run": "tools/mutant_lab.sh run patch.diff (all 19 quick checks in a mirror of /verif + /repo)",
+        "checks_run": "tools/mutant_lab.sh run patch.diff in a mirror of /verif + /repo: all 19 quick checks with the harness at the time of the round (where listed), then the target property's check, C14, C10 and C01 with the harness after the third round",
         "reported_by": flagged,
+        "reported_by_all_19_at_round_time": old_flagged,
+        "reported_by_target_C14_C10_C01_after_round_3": final_flagged,
         "first_violation_key_per_check": keys,
         "target_property_reported": prop in flagged,
     }
